@@ -72,7 +72,7 @@ pub enum Op {
 pub type Plan = Vec<Op>;
 
 /// Number of static data families (see fam.rs). Kept here so the generator does not depend on fam.
-pub const NFAM: usize = 13;
+pub const NFAM: usize = 15;
 
 /// Model-side knowledge of what each static family accesses (written down independently of shred's
 /// `reads()` / `writes()`; C06 checks the latter).
@@ -92,6 +92,9 @@ pub fn family_access(k: u8) -> (Vec<Res>, Vec<Res>) {
         10 => (vec![r(6), r(7)], vec![r(0)]),
         11 => (vec![r(1), r(1)], vec![]),
         12 => (vec![r(5)], vec![r(6)]),
+        // the same-named twins (see `with_fam!`): data of family 1 and of family 2
+        13 => (vec![r(0)], vec![]),
+        14 => (vec![], vec![r(1)]),
         _ => panic!("harness: family index out of range"),
     }
 }
@@ -114,6 +117,8 @@ pub fn family_provides(k: u8) -> Vec<Res> {
         10 => vec![r(6), r(0), r(7)],
         11 => vec![r(1)],
         12 => vec![r(5), r(6)],
+        13 => vec![r(0)],
+        14 => vec![r(1)],
         _ => panic!("harness: family index out of range"),
     }
 }
@@ -495,10 +500,13 @@ pub struct GenCfg {
     /// probability (in 1/16) that a system repeats the dependency list of the last system that had
     /// one, entry for entry
     pub p_copy_deps: usize,
+    /// probability (in 1/16) that no system of a plan (at any depth) gets a name
+    pub p_all_unnamed: usize,
 }
 
 thread_local! {
     static RT_SKEW: std::cell::Cell<bool> = const { std::cell::Cell::new(false) };
+    static ALL_UNNAMED: std::cell::Cell<bool> = const { std::cell::Cell::new(false) };
 }
 
 fn gen_rt(src: &mut Src) -> u8 {
@@ -537,6 +545,7 @@ impl Default for GenCfg {
             extended_universe: false,
             rt_skew: 4,
             p_copy_deps: 0,
+            p_all_unnamed: 1,
         }
     }
 }
@@ -547,7 +556,7 @@ struct NameGen {
 
 impl NameGen {
     fn make(&mut self, src: &mut Src, cfg: &GenCfg, i: usize) -> String {
-        if src.chance(cfg.p_unnamed, 16) {
+        if ALL_UNNAMED.with(|s| s.get()) || src.chance(cfg.p_unnamed, 16) {
             return String::new();
         }
         let mut name = if src.chance(cfg.p_odd_name, 16) {
@@ -596,8 +605,11 @@ pub fn gen_plan(src: &mut Src, cfg: &GenCfg) -> Plan {
     };
     let skew = cfg.rt_skew > 0 && src.chance(cfg.rt_skew, 16);
     RT_SKEW.with(|s| s.set(skew));
+    let anon = cfg.p_all_unnamed > 0 && src.chance(cfg.p_all_unnamed, 16);
+    ALL_UNNAMED.with(|s| s.set(anon));
     let plan = gen_builder(src, cfg, &universe, 0, cfg.max_ops);
     RT_SKEW.with(|s| s.set(false));
+    ALL_UNNAMED.with(|s| s.set(false));
     plan
 }
 
